@@ -681,6 +681,30 @@ def admin_case(rng):
     return {"procs": procs, "stale": [[gk, 9]], "sched": sched, "src": "admin"}
 
 
+def acq_signal_case(rng):
+    """D12h: a command that has taken its locks on the earlier stacks of its path is interrupted during takeLocks — between
+    two stacks, or in the retry wait for a contended later stack — and must leave nothing behind: a reader of the first
+    stack, started afterwards, gets its lock"""
+    nd = rng.choice([2, 2, 3])
+    last = nd - 1
+    ykind = rng.choice("EEES")
+    procs = [P("E", explicit=rng.random() < 0.8), P(ykind, tries=rng.choice([1, 2, 3]), explicit=rng.random() < 0.8, user=pick_user(rng)),
+             P(rng.choice("SSE"), user=pick_user(rng))]
+    procs[0]["path"] = [last]                     # X holds the last stack
+    procs[1]["path"] = list(range(nd))            # Y wants them all, in order
+    procs[2]["path"] = [0]                        # Z comes afterwards, for the first one
+    sched = [0, 0, 0]
+    where = rng.choice(["between", "wait", "wait", "wait2"])
+    took = rng.randint(1, last) if where == "between" else last       # stacks Y has locked when the signal comes
+    sched += [1] * (3 * took)
+    if where != "between":
+        per = 3 if ykind == "E" else 0            # an exclusive request is turned away at the gate: mkdir, listing, listing
+        sched += [1] * (per * (2 if where == "wait2" else 1))
+    sched += [-2] + [1] * (4 * took + rng.choice([0, 2])) + [2] * 5 + [0] * 6 + [2] * 6
+    c = {"procs": procs, "sched": sched, "ndirs": nd, "src": "acqsignal", "signal": rng.choice(["INT", "INT", "TERM"])}
+    return c
+
+
 def name_cases():
     """every login name of USERS on a phase-atomic order that needs the holder's file to be recognised: an exclusive
     holder keeps an unrelated reader out and lets its own children (under yet other names) re-enter"""
@@ -826,7 +850,13 @@ def evaluate(ctx, cases):
         if any(t[1] == "signal" for t in r["trace"]):
             ctx.hist("with_signal=" + c.get("signal", "TERM"))
             if any(t[1] == "signal" and t[2] == "delivered" for t in r["trace"]):
-                ctx.hist("signal_delivered_in_body")
+                ctx.hist("signal_delivered_in_body" if len(r.get("acq_signals") or []) <
+                         sum(1 for t in r["trace"] if t[1] == "signal" and t[2] == "delivered") else "signal_delivered_only_during_takeLocks")
+            for i in r.get("acq_signals") or []:
+                ctx.hist("signal_delivered_during_takeLocks")
+                held_before = any(t[0] == i and t[1].startswith("create") and t[2] == "ok" for t in r["trace"])
+                if held_before and len(c["procs"][i].get("path", [0])) > 1:
+                    ctx.hist("signal_during_takeLocks_with_earlier_stacks_locked")
         names = {p.get("user") for p in c["procs"]}
         if names != {None}:
             ctx.hist("with_login_names")
@@ -963,6 +993,7 @@ def generated(ctx, sizes, three_limit):
             [random_case(ctx.rng, 2) for _ in range(r2)], [phase_case(ctx.rng) for _ in range(nphase)],
             [path_case(ctx.rng) for _ in range(npath)], [signal_case(ctx.rng) for _ in range(nsig)],
             [admin_case(ctx.rng) for _ in range(max(20, nsig // 3))],
+            [acq_signal_case(ctx.rng) for _ in range(max(40, nsig // 2))],
             cmd_cases(ctx.rng, ncmd)]
 
 
@@ -1005,6 +1036,8 @@ def run(ctx):
         raise common.InfraError("no case of this run had a stale lock cleared by `eups admin clearLocks`")
     if not ctx.histogram.get("sigkill=killed"):
         raise common.InfraError("no locker was killed outright in this run")
+    if not ctx.histogram.get("signal_during_takeLocks_with_earlier_stacks_locked"):
+        raise common.InfraError("no command of this run was interrupted during takeLocks with locks on earlier stacks already taken")
     if not ctx.histogram.get("signal_delivered_in_body"):
         raise common.InfraError("no signal was delivered to a command body in this run")
     for ev in ("request_withdrawn", "retry_after_withdrawal", "create_found_directory_removed", "retry_after_directory_removed",
